@@ -55,6 +55,8 @@ func access(kind, m int, recv string) string {
 		return "$nm = \"" + propNames[m] + "\"; emit(" + recv + "->$nm);"
 	case 6: // dynamic method name
 		return "$nm = \"" + methNames[m] + "\"; emit(" + recv + "->$nm());"
+	case 7: // array-style read of a property
+		return "emit(" + recv + "[\"" + propNames[m] + "\"]);"
 	}
 	return ""
 }
@@ -64,11 +66,11 @@ func guarded(stmt string) string {
 }
 
 var initial = []int{1, 2, 3}
-var readVals = [][]int{{1, 2, 3}, nil, {11, 12, 13}, {21, 22, 23}, {31, 32, 33}, {1, 2, 3}, {11, 12, 13}}
+var readVals = [][]int{{1, 2, 3}, nil, {11, 12, 13}, {21, 22, 23}, {31, 32, 33}, {1, 2, 3}, {11, 12, 13}, {1, 2, 3}}
 
 // H_visibility: (member kind x modifier) x access site.
 func H_visibility() {
-	kind, m := symx.Choose("kind", 7), symx.Choose("mod", 3)
+	kind, m := symx.Choose("kind", 8), symx.Choose("mod", 3)
 	// 0 outside, 1 same class, 2 subclass, 3 unrelated class, 4 closure in global code, 5 another subclass of the
 	// same parent acting on a Child instance, 6 code of the declaring class acting on an instance of a
 	// SUBCLASS passed in a variable, 7 the same code inherited by and running on a subclass object, acting on
@@ -76,6 +78,11 @@ func H_visibility() {
 	// 8 global code acting on what a method handed out with `return $this`
 	site := symx.Choose("site", 9)
 	w := symx.Int("w")
+	if kind == 7 && site != 0 && site != 3 && site != 4 {
+		// the array-style read is an outside-access path (inside a class it is stricter than `->`,
+		// which the property does not forbid): checked from global code, an unrelated class, a closure
+		return
+	}
 	src := fixture
 	same, sub, sib, bro, sameB := "return 0;", "return 0;", "return 0;", "return 0;", "return 0;"
 	main := ""
